@@ -388,6 +388,15 @@ func c24EntityForm(r *Run, fi *FuncInfo, subj *types.Var, key string) bool {
 	if bObj != nil && nObj != nil {
 		c24BufferSize(r, key, fi, info, bObj, nObj, subj)
 	}
+	if nObj != nil && countSite != nil {
+		want := map[int64]int64{}
+		for b, e := range table {
+			if e != "" {
+				want[b] = int64(len(e)) - 1
+			}
+		}
+		c24CounterWrites(r, key, fi, nObj, subj, want, countSite)
+	}
 	r.Require(R1, 5*3+5)
 	return true
 }
